@@ -277,6 +277,7 @@ fn log_script<const INIT: usize, const K: usize, const POLICY: usize>(ops: [u8; 
     let mut log = new_log(tracker, f2, OFFSET, qs, policy);
     observe(&log, &m, meta);
     let mut effective = 0;
+    let mut interesting = false; // a rejected / no-op call was issued, or GC reclaimed a file
     let mut j = 0;
     while j < K {
         let op = ops[j];
@@ -296,6 +297,7 @@ fn log_script<const INIT: usize, const K: usize, const POLICY: usize>(ops: [u8; 
             std::mem::forget(r);
             assert!(ok == !ex, "C05: create_queue succeeds iff the queue did not exist");
             if ex {
+                interesting = true;
                 assert!(offset_of(&log) == before, "C13: a rejected create_queue wrote to the WAL");
             } else {
                 assert!(bytes == offset_of(&log) - before, "C15: create_queue wal_bytes_written");
@@ -319,6 +321,9 @@ fn log_script<const INIT: usize, const K: usize, const POLICY: usize>(ops: [u8; 
             m.q[qi].exists = false;
             m.q[qi].n = 0;
             let gc = m.gc();
+            if gc.is_some() {
+                interesting = true;
+            }
             assert!(bytes == offset_of(&log) - before, "C15: delete_queue wal_bytes_written (incl. GC position entries)");
             let mut expect = entry_bytes(name, 0);
             if let Some(empty) = gc {
@@ -364,9 +369,11 @@ fn log_script<const INIT: usize, const K: usize, const POLICY: usize>(ops: [u8; 
                 std::mem::forget(r);
                 let after = offset_of(&log);
                 if kind == 5 {
+                    interesting = true;
                     assert!(!ok && past, "C05: an explicit position older than the last one is a Past error");
                     assert!(after == before, "C13: a rejected append wrote to the WAL");
                 } else if kind == 4 || kind == 6 {
+                    interesting = true;
                     assert!(ok && lastp.is_none() && bytes == 0, "C05/C13: a retried last position / an empty batch is an acknowledged no-op reporting 0 bytes");
                     assert!(after == before, "C13: a no-op append wrote to the WAL");
                 } else {
@@ -431,6 +438,9 @@ fn log_script<const INIT: usize, const K: usize, const POLICY: usize>(ops: [u8; 
                 m.q[qi].next = t + 1;
             }
             let gc = m.gc();
+            if gc.is_some() {
+                interesting = true;
+            }
             assert!(bytes == offset_of(&log) - before, "C15: truncate wal_bytes_written (incl. GC position entries)");
             let mut expect = entry_bytes(name, 0);
             if gc.is_some() {
@@ -448,7 +458,7 @@ fn log_script<const INIT: usize, const K: usize, const POLICY: usize>(ops: [u8; 
         observe(&log, &m, meta);
         j += 1;
     }
-    if effective >= 2 {
+    if effective >= 2 || interesting {
         mark_nontrivial();
     }
     std::mem::forget(log);
